@@ -225,7 +225,7 @@ func (n *c18Net) keeperMods() (m c18Mods, err error) {
 
 // ---------- Coq terms ----------
 
-func hx(b []byte) string { return "(hx \"" + hex.EncodeToString(b) + "\")" }
+func hx(b []byte) string  { return "(hx \"" + hex.EncodeToString(b) + "\")" }
 func hxs(s string) string { return hx([]byte(s)) }
 
 func c18Addr(s string) []byte {
@@ -529,6 +529,10 @@ func c18ExportImport(t *testing.T, r *rand.Rand, w *CaseWriter, label string, re
 	for _, k := range c18SortedKeys(g.lcFinalStats()) {
 		w.CountN("exported_lifecycle_marker_"+k, int64(g.lcFinalStats()[k]))
 	}
+	refStats := g.refStats()
+	for _, k := range c18SortedKeys(refStats) {
+		w.CountN("exported_dangling_"+k, int64(refStats[k]))
+	}
 	stateMarkers1 := ref.stateMarkers()
 	// the first key bytes present in every custom module's store at export time
 	for _, m := range c18Modules {
@@ -643,6 +647,10 @@ func c18ExportImport(t *testing.T, r *rand.Rand, w *CaseWriter, label string, re
 			if _, err := e1.block(at, nil); err != nil {
 				accept1 = false
 				w.Count("import_first_block_failed")
+				importErr = "block after import failed: " + err.Error()
+				if len(importErr) > 400 {
+					importErr = importErr[:400]
+				}
 			}
 		}
 		nCont := 0
@@ -695,7 +703,7 @@ func c18ExportImport(t *testing.T, r *rand.Rand, w *CaseWriter, label string, re
 							if !explained {
 								contUnexplained++
 							}
-							contDiffs = append(contDiffs, map[string]any{"explained_by_attribute_lookup_counter": explained,"block_after_import": 4 + i, "tx": bl.kinds[ti], "code": []uint32{a.Code, b.Code},
+							contDiffs = append(contDiffs, map[string]any{"explained_by_attribute_lookup_counter": explained, "block_after_import": 4 + i, "tx": bl.kinds[ti], "code": []uint32{a.Code, b.Code},
 								"gas_used": []int64{a.GasUsed, b.GasUsed}, "log_exporting": a.Log[:min(len(a.Log), 160)], "log_imported": b.Log[:min(len(b.Log), 160)]})
 						}
 					}
@@ -719,7 +727,7 @@ func c18ExportImport(t *testing.T, r *rand.Rand, w *CaseWriter, label string, re
 			a, b := strip(ref.digests), strip(e1.digests)
 			w.Add(fmt.Sprintf("CDigests %s \"postimport\" %s %s", coqStr(label), c18StrList(a), c18StrList(b)),
 				map[string]any{"kind": "digests", "label": label, "mode": "postimport", "blocks": len(a), "blocks_with_transactions": nCont, "first_difference": c18FirstDiff(a, b), "differing_transactions": contDiffs,
-					"events_equal":                                c18EventsPartEqual(a, b),
+					"events_equal": c18EventsPartEqual(a, b),
 					"only_attribute_lookup_counter_gas_differs": len(contDiffs) > 0 && contUnexplained == 0 && c18EventsPartEqual(a, b)})
 		}
 	}
@@ -976,7 +984,9 @@ func c18Perturbed(t *testing.T, r *rand.Rand, w *CaseWriter, label string, ref *
 			q.QuarantinedAddresses[i], q.QuarantinedAddresses[j] = q.QuarantinedAddresses[j], q.QuarantinedAddresses[i]
 		})
 		q.QuarantinedFunds = append([]*quarantine.QuarantinedFunds{}, q.QuarantinedFunds...)
-		rev(len(q.QuarantinedFunds), func(i, j int) { q.QuarantinedFunds[i], q.QuarantinedFunds[j] = q.QuarantinedFunds[j], q.QuarantinedFunds[i] })
+		rev(len(q.QuarantinedFunds), func(i, j int) {
+			q.QuarantinedFunds[i], q.QuarantinedFunds[j] = q.QuarantinedFunds[j], q.QuarantinedFunds[i]
+		})
 		q.AutoResponses = append([]*quarantine.AutoResponseEntry{}, q.AutoResponses...)
 		rev(len(q.AutoResponses), func(i, j int) { q.AutoResponses[i], q.AutoResponses[j] = q.AutoResponses[j], q.AutoResponses[i] })
 		m.Quar = q
@@ -1006,7 +1016,9 @@ func c18Perturbed(t *testing.T, r *rand.Rand, w *CaseWriter, label string, ref *
 			s.SanctionedAddresses[i], s.SanctionedAddresses[j] = s.SanctionedAddresses[j], s.SanctionedAddresses[i]
 		})
 		s.TemporaryEntries = append([]*sanction.TemporaryEntry{}, s.TemporaryEntries...)
-		rev(len(s.TemporaryEntries), func(i, j int) { s.TemporaryEntries[i], s.TemporaryEntries[j] = s.TemporaryEntries[j], s.TemporaryEntries[i] })
+		rev(len(s.TemporaryEntries), func(i, j int) {
+			s.TemporaryEntries[i], s.TemporaryEntries[j] = s.TemporaryEntries[j], s.TemporaryEntries[i]
+		})
 		m.Sanc = s
 	case 15:
 		what = "sanction:temp-duplicate-flipped"
@@ -1128,11 +1140,16 @@ func c18AttrCounters(n *c18Net) map[string]string {
 	return out
 }
 
-
-// c18AttrMsgTarget: the (name, account) whose lookup counter a single-message attribute transaction touches
+// c18AttrMsgTarget: the (name, account) whose lookup counter an attribute transaction touches: one
+// attribute add / update / delete, possibly followed by the failing bank send of a rolled-back wrapper
 func c18AttrMsgTarget(p *c18Tx) (name, account string, ok bool) {
-	if p == nil || len(p.msgs) != 1 {
+	if p == nil || len(p.msgs) == 0 {
 		return "", "", false
+	}
+	for _, m := range p.msgs[1:] {
+		if _, isSend := m.(*banktypes.MsgSend); !isSend {
+			return "", "", false
+		}
 	}
 	switch m := p.msgs[0].(type) {
 	case *attrtypes.MsgDeleteDistinctAttributeRequest:
